@@ -200,14 +200,17 @@ def hyp_collect(ctx, strategy, fn, max_examples, salt=0, shrink=True, shrink_exa
             hyp_shrink(ctx, strategy, fn, bucket, max_examples=shrink_examples, salt=salt)
 
 
-def hyp_shrink(ctx, strategy, fn, bucket, max_examples=300, salt=0):
+def hyp_shrink(ctx, strategy, fn, bucket, max_examples=300, salt=0, budget_s=25):
     from hypothesis import given, seed, Phase
     minimal = []
+    t0 = time.time()
 
     @seed(hyp_seed(ctx, salt))
     @hyp_settings(max_examples, phases=(Phase.generate, Phase.shrink))
     @given(strategy)
     def find(v):
+        if minimal and time.time() - t0 > budget_s:
+            return                    # shrink budget used up: keep the smallest case found so far
         sub = Ctx(ctx.prop, ctx.tier, ctx.seed, ctx.shard_index)
         sub._shrink_bucket = bucket
         try:
@@ -246,6 +249,7 @@ def load_findings(prop):
 def _worker(args):
     modname, tier, seed, idx, shard = args
     _quiet()
+    _preimport()
     import importlib
     mod = importlib.import_module(modname)
     ctx = Ctx(mod.PROPERTY, tier, seed, idx)
@@ -268,6 +272,20 @@ def _quiet():
     logging.disable(logging.CRITICAL)
     import warnings
     warnings.simplefilter('ignore')
+
+
+def _preimport():
+    """Import androguard before forking the workers: cheaper (imported once) and it keeps Hypothesis'
+    generation independent of *when* a worker first imports it (a lazy import inside the first example was
+    observed to change what is generated afterwards)."""
+    import importlib
+    for m in ('androguard.core.dex', 'androguard.core.analysis.analysis', 'androguard.core.axml',
+              'androguard.core.apk', 'androguard.decompiler.decompile', 'androguard.misc', 'hypothesis'):
+        try:
+            importlib.import_module(m)
+        except Exception as e:      # a broken tree shows up in the checks themselves
+            sys.stderr.write('preimport %s failed: %r\n' % (m, e))
+    _quiet()
 
 
 def merge(dumps):
@@ -322,6 +340,7 @@ def run_check(mod, tier, seed, jobs=None):
             open_hit[e['id']] = still
 
     # 2. sharded generated search
+    _preimport()
     shards = mod.shards(tier, seed)
     jobs = jobs or min(len(shards), int(os.environ.get('VERIF_JOBS', '16'))) or 1
     args = [(mod.__name__, tier, seed, i, s) for i, s in enumerate(shards)]
